@@ -384,3 +384,23 @@ M("C07", "custom-data-value-from-message", "admin/certificate_v2.py",
 M("C07", "verify-exception-true", "admin/certificate_v2.py",
   "                ec.ECDSA(subject.signature_hash_algorithm)\n            )\n\n            return True\n\n        except Exception:\n            return False",
   "                ec.ECDSA(subject.signature_hash_algorithm)\n            )\n\n            return True\n\n        except ValueError:\n            return True\n        except Exception:\n            return False")
+
+# ---- C16
+M("C16", "visited-check-removed", "admin/certificate_v1.py",
+  "                if current.name in visited:\n                    raise ValueError(\n                        f\"Target {target} has not got a path to the root authority\")",
+  "                if current.name in visited and current is None:\n                    raise ValueError(\n                        f\"Target {target} has not got a path to the root authority\")")
+M("C16", "visited-on-signed-by", "admin/certificate_v1.py",
+  "                visited.append(current.name)\n",
+  "                visited.append(current.signed_by if current.signed_by != current.name else None)\n")
+M("C16", "targets-validated-before-elements", "admin/certificate_v1.py",
+  "        for item in certificate_map[\"elements\"]:\n            element = self.ELEMENT_FACTORY(item)\n            self._elements[item[\"name\"]] = element\n\n        # Sanity: check each target has a path to the root authority\n        for target in self._targets:",
+  "        for item in certificate_map[\"elements\"]:\n            element = self.ELEMENT_FACTORY(item)\n            self._elements.setdefault(item[\"name\"], element)\n\n        # Sanity: check each target has a path to the root authority\n        for target in self._targets[:1]:")
+M("C16", "revert-to-dict-fix", "admin/certificate_v2.py",
+  "            \"message\": self._message.hex(),\n            \"key\": self._key.hex(),",
+  "            \"message\": self.message.get_raw_data().hex(),\n            \"key\": self.key.to_string(\"uncompressed\").hex(),")
+M("C16", "tweak-dropped-on-save", "admin/certificate_v1.py",
+  "        if self.tweak is not None:\n            result[\"tweak\"] = self.tweak\n\n        return result",
+  "        if self.tweak is not None and self.name != \"ui\":\n            result[\"tweak\"] = self.tweak\n\n        return result")
+M("C16", "v2-quote-custom-data-lowercased-trim", "admin/certificate_v2.py",
+  "            \"custom_data\": self.custom_data,\n            \"signature\": self.signature,\n            \"signed_by\": self.signed_by,\n        }\n\n\nclass HSMCertificateV2ElementSGXAttestationKey",
+  "            \"custom_data\": self.custom_data[:250],\n            \"signature\": self.signature,\n            \"signed_by\": self.signed_by,\n        }\n\n\nclass HSMCertificateV2ElementSGXAttestationKey")
